@@ -14,7 +14,7 @@
    [stat_sim] / [obs_sim]: equality, except that the specification reports 0 for the size of a directory (in a
    FileInfo, and in every entry of a directory listing). *)
 From Avfs Require Import Base PathModel PathSpec PathProofs PathCleanProofs PathIterProofs.
-From Avfs Require Import MemFS MemFile World Posix WalkBridge WalkSym WalkBudget WalkReadlink StepEq.
+From Avfs Require Import MemFS MemFile World Posix WalkBridge WalkSym WalkBudget WalkReadlink WalkRel StepEq.
 
 Theorem C01_step_stat : forall (s : fsys) (sv : sview) (cs : list str),
   step_hyps s sv -> path_ok s sv SlStat cs ->
@@ -135,6 +135,38 @@ Theorem C01_step_open_create_trunc : forall (s : fsys) (sv : sview) (vi : nat) (
   no_setgid_parent_follow s sv (w ++ [cl]) ->
   open_sim (open_file s (sv_view sv) vi (abs_path (w ++ [cl])) WCT perm) (k_open s sv (abs_path (w ++ [cl])) WCT perm).
 Proof. exact step_open_wct. Qed.
+
+(* Stat/Lstat, Readlink, Chtimes, Chmod, Truncate, Chdir for ANY path on which the two walks are related ([resolved]):
+   clean absolute paths ([resolved_abs]) and clean RELATIVE paths, given that the working-directory string is a
+   directory walk to the kernel's working-directory node ([C01_resolved_rel], from C04_resolve_rel) *)
+Theorem C01_resolved_rel : forall (s : fsys) (sv : sview) (slm : slmode) (bs : list str) (x : str),
+  step_hyps s sv ->
+  v_cwd (sv_view sv) = abs_path bs -> Forall good_comp bs ->
+  dwalk (f_heap s) (v_user (sv_view sv)) (v_root (sv_view sv)) bs = Some (sv_cwd sv) ->
+  is_abs Linux (clean Linux x) = false ->
+  klookup s sv false (follow_of slm) (clean Linux x) <> WErr EFUEL ->
+  sr_err (search_node s (sv_view sv) (clean Linux x) slm) <> EFuel ->
+  resolved s sv slm (clean Linux x).
+Proof. exact resolved_rel. Qed.
+
+Theorem C01_steps_resolved : forall (s : fsys) (sv : sview) (p : str),
+  step_hyps s sv ->
+  (forall slm, resolved s sv slm p ->
+     stat_sim (proj_res Linux (stat_gen slm s (sv_view sv) p)) (k_stat (follow_of slm) s sv p))
+  /\ (resolved s sv SlLstat p -> proj_res Linux (readlink s (sv_view sv) p) = k_readlink s sv p)
+  /\ (resolved s sv SlEval p -> proj_res Linux (chtimes s (sv_view sv) p) = k_utimes s sv p)
+  /\ (forall mode, resolved s sv SlEval p ->
+        (fst (chmod s (sv_view sv) p mode), proj_res Linux (snd (chmod s (sv_view sv) p mode))) = k_chmod s sv p mode)
+  /\ (forall size, resolved s sv SlEval p ->
+        (fst (truncate s (sv_view sv) p size), proj_res Linux (snd (truncate s (sv_view sv) p size)))
+        = k_truncate s sv p size)
+  /\ (resolved s sv SlEval p ->
+        match chdir s (sv_view sv) p, k_chdir s sv p with
+        | inl r, inl e => proj_res Linux r = SErr e
+        | inr _, inr _ => True
+        | _, _ => False
+        end).
+Proof. exact steps_resolved. Qed.
 
 (* one step of the two step functions of the models (the statement the oracle stream's "T" column tests):
    covered call => same projected result, and the abstraction relation is kept (same file system, same view) *)
